@@ -230,7 +230,7 @@ class Total(Job):
 
 
 def base_jobs(tier):
-    N = 3 if tier == "quick" else 5
+    N = 3 if tier == "quick" else 6
     M = c08.MemberShape
     out = []
     for n in range(0, N + 1):
@@ -382,7 +382,7 @@ ASSUMPTIONS = ["numpy/pandas environment model validated per path against the re
 
 
 def bounds(tier):
-    return {"series_length": "0..3" if tier == "quick" else "0..5 (0..3 for std / climatology)", "functions": 11,
+    return {"series_length": "0..3" if tier == "quick" else "0..6 (0..3 for std / climatology)", "functions": 11,
             "history": "each call is repeated with a different QC call in between; module globals compared before/after"}
 
 
